@@ -1,0 +1,15 @@
+//go:build !verif
+
+package server
+
+import (
+	"context"
+	"net"
+)
+
+// Verification hooks (see verif_on.go). With the "verif" build tag off these
+// are inlinable no-ops.
+
+func verifYield(point string, f *fsm) {}
+
+func verifDial(ctx context.Context, addr string, port int) (net.Conn, bool) { return nil, false }
